@@ -64,13 +64,27 @@ func parseDirective(doc string, o *HarnessOpts) {
 				o.ExpectFail = p[1] == "fail"
 			case "maxconc":
 				o.MaxConc, _ = strconv.Atoi(p[1])
+			case "use":
+				o.Use = strings.Split(p[1], ",")
+			case "workers":
+				o.Workers, _ = strconv.Atoi(p[1])
 			}
 		}
 	}
 }
 
+type stubDecl struct {
+	Target string // function name as printed by ssa (module path stripped)
+	Func   string // harness-side function name
+	RelDir string
+	Set    string
+}
+
+var allStubs []stubDecl
+
 func discover(hdir string) ([]harnessDecl, error) {
 	var out []harnessDecl
+	allStubs = nil
 	fset := token.NewFileSet()
 	err := filepath.Walk(hdir, func(p string, info os.FileInfo, err error) error {
 		if err != nil || info.IsDir() || !strings.HasSuffix(p, ".go") {
@@ -83,6 +97,21 @@ func discover(hdir string) ([]harnessDecl, error) {
 		rel, _ := filepath.Rel(hdir, filepath.Dir(p))
 		for _, d := range f.Decls {
 			fd, ok := d.(*ast.FuncDecl)
+			if ok && fd.Recv == nil && fd.Doc != nil {
+				for _, line := range strings.Split(fd.Doc.Text(), "\n") {
+					line = strings.TrimSpace(line)
+					if strings.HasPrefix(line, "zz:replace ") {
+						fs := strings.Fields(line[len("zz:replace "):])
+						sd := stubDecl{Target: fs[0], Func: fd.Name.Name, RelDir: rel, Set: "default"}
+						for _, kv := range fs[1:] {
+							if strings.HasPrefix(kv, "set=") {
+								sd.Set = kv[4:]
+							}
+						}
+						allStubs = append(allStubs, sd)
+					}
+				}
+			}
 			if !ok || fd.Recv != nil || !strings.HasPrefix(fd.Name.Name, "ZZ_") {
 				continue
 			}
@@ -150,7 +179,8 @@ var (
 	flagTier    = flag.String("tier", "quick", "quick|thorough")
 	flagOut     = flag.String("out", "", "evidence file")
 	flagOnly    = flag.String("only", "", "regexp on harness names")
-	flagJ       = flag.Int("j", 12, "parallel harnesses")
+	flagJ       = flag.Int("j", 8, "parallel harnesses")
+	flagW       = flag.Int("w", 4, "path workers per harness")
 	flagKnown   = flag.String("known", "/verif/known_findings.json", "known findings file")
 	flagReplay  = flag.String("replaydir", "/verif/replay/out", "directory for counterexample files")
 	flagV       = flag.Bool("v", false, "verbose")
@@ -218,30 +248,30 @@ func buildOverlay(hs []harnessDecl, repo string) map[string][]byte {
 }
 
 type HarnessReport struct {
-	Name        string            `json:"harness"`
-	Pkg         string            `json:"package"`
-	Backend     string            `json:"backend"`
-	Verdict     string            `json:"verdict"` // held | violated | inconclusive | known-finding
-	Paths       int               `json:"paths"`
-	Completed   int               `json:"completed_paths"`
-	Steps       int64             `json:"ssa_instructions"`
-	Queries     int               `json:"queries"`
-	Unsat       int               `json:"unsat"`
-	Sat         int               `json:"sat"`
-	Unknown     int               `json:"unknown"`
+	Name        string             `json:"harness"`
+	Pkg         string             `json:"package"`
+	Backend     string             `json:"backend"`
+	Verdict     string             `json:"verdict"` // held | violated | inconclusive | known-finding
+	Paths       int                `json:"paths"`
+	Completed   int                `json:"completed_paths"`
+	Steps       int64              `json:"ssa_instructions"`
+	Queries     int                `json:"queries"`
+	Unsat       int                `json:"unsat"`
+	Sat         int                `json:"sat"`
+	Unknown     int                `json:"unknown"`
 	SolverSecs  map[string]float64 `json:"solver_seconds"`
-	MaxQueryS   float64           `json:"max_query_seconds"`
-	TermNodes   int               `json:"max_query_term_nodes"`
-	WallS       float64           `json:"wall_s"`
-	Obligations []OblStat         `json:"obligations"`
-	Assumes     []string          `json:"assumes,omitempty"`
-	Stubs       []string          `json:"stubs,omitempty"`
-	Funcs       []string          `json:"functions_encoded,omitempty"`
-	Incon       []string          `json:"inconclusive,omitempty"`
-	Findings    []*Finding        `json:"findings,omitempty"`
-	Log         []string          `json:"log,omitempty"`
-	Inputs      int               `json:"symbolic_inputs"`
-	TimeoutS    int               `json:"query_timeout_s"`
+	MaxQueryS   float64            `json:"max_query_seconds"`
+	TermNodes   int                `json:"max_query_term_nodes"`
+	WallS       float64            `json:"wall_s"`
+	Obligations []OblStat          `json:"obligations"`
+	Assumes     []string           `json:"assumes,omitempty"`
+	Stubs       []string           `json:"stubs,omitempty"`
+	Funcs       []string           `json:"functions_encoded,omitempty"`
+	Incon       []string           `json:"inconclusive,omitempty"`
+	Findings    []*Finding         `json:"findings,omitempty"`
+	Log         []string           `json:"log,omitempty"`
+	Inputs      int                `json:"symbolic_inputs"`
+	TimeoutS    int                `json:"query_timeout_s"`
 }
 
 func cmdCheck() int {
@@ -381,12 +411,21 @@ func cmdCheck() int {
 			file := filepath.Join(*flagReplay, fmt.Sprintf("%s_%s_%d.json", h.Opts.Prop, h.Name, len(violLines)))
 			writeReplayFile(file, h, f)
 			f.Replay = file
+			if f.Status == "" && *flagNoRep {
+				f.Status = "not replayed"
+			}
 			if f.Status == "abstract" {
 				f.Status = "abstract-level counterexample over free partial products (not natively replayable)"
 			} else if !*flagNoRep {
 				st := nativeReplay(file, h, f, ovDecls)
 				f.Status = st
 				nReplayed++
+			}
+			if f.Status == "not-reproduced" {
+				// the model does not fail natively: the encoding or a stub is wrong (tooling error, not a violation)
+				rp.Incon = append(rp.Incon, fmt.Sprintf("spurious counterexample (%s %q at %s) not reproduced by native replay %s", f.Kind, f.Label, f.Pos, file))
+				f.Known = "spurious"
+				continue
 			}
 			violLines = append(violLines, fmt.Sprintf("VIOLATION property=%s replay=%s", h.Opts.Prop, file))
 			fmt.Fprintf(os.Stderr, "  finding in %s: %s %q at %s [%s]\n", h.Name, f.Kind, f.Label, f.Pos, f.Status)
@@ -407,6 +446,16 @@ func cmdCheck() int {
 				if f.Known == "" {
 					allKnown = false
 				}
+			}
+			onlySpurious := true
+			for _, f := range rp.Findings {
+				if f.Known != "spurious" {
+					onlySpurious = false
+				}
+			}
+			if onlySpurious {
+				rp.Verdict = "inconclusive"
+				break
 			}
 			if allKnown {
 				rp.Verdict = "known-finding"
@@ -462,6 +511,31 @@ func runHarness(h harnessDecl, fn *ssa.Function, prog *ssa.Program) (rep *Harnes
 	}
 	r := newHarnessRun(h.Name, fn, prog, opts)
 	r.Pkg = h.RelDir
+	use := map[string]bool{"default": true}
+	for _, u := range opts.Use {
+		if u == "none" {
+			delete(use, "default")
+		} else {
+			use[u] = true
+		}
+	}
+	for _, sd := range allStubs {
+		if !use[sd.Set] {
+			continue
+		}
+		var sp *ssa.Package
+		for _, p := range prog.AllPackages() {
+			if p.Pkg.Path() == modPath+"/"+sd.RelDir {
+				sp = p
+			}
+		}
+		if sp == nil {
+			continue
+		}
+		if sf := sp.Func(sd.Func); sf != nil {
+			r.stubFns[sd.Target] = sf
+		}
+	}
 	func() {
 		defer func() {
 			if rec := recover(); rec != nil {
@@ -469,7 +543,11 @@ func runHarness(h harnessDecl, fn *ssa.Function, prog *ssa.Program) (rep *Harnes
 				r.closeSolvers()
 			}
 		}()
-		r.runAll()
+		w := *flagW
+		if opts.Workers > 0 {
+			w = opts.Workers
+		}
+		r.runAll(w)
 	}()
 	rep = &HarnessReport{Name: h.Name, Pkg: h.RelDir, Backend: opts.Backend, Paths: r.stats.Paths, Completed: r.completed, Steps: r.stats.Steps,
 		Queries: r.stats.Queries, Unsat: r.stats.Unsat, Sat: r.stats.Sat, Unknown: r.stats.Unknown, SolverSecs: r.stats.SolverSecs,
